@@ -739,6 +739,16 @@ def translate(repo=None):
     return res
 
 
+def translate_schema_only(repo=None):
+    """fallback used by the oracle when fold.rs / visitor.rs are not recognised: node kinds only"""
+    repo = repo or core.REPO
+    with open(os.path.join(repo, "ast", "src", "gen", "generic.rs"), encoding="utf-8") as f:
+        sums, simple, structs, order = parse_generic(f.read())
+    res = Result()
+    res.schema = build_schema(sums, simple, structs, order)
+    return res
+
+
 def shape_lean(sc, t):
     tag, x = t
     if tag == "leaf":
